@@ -306,7 +306,7 @@ PROPS = {
         timeout={"quick": 900, "thorough": 5400},
     ),
     "C03": dict(
-        lean_modules=["Liftbridge.Props.C03"],
+        lean_modules=["Liftbridge.Props.C03", "Liftbridge.Props.GoHW"],
         gen_sources=["server/commitlog/commitlog.go", "server/commitlog/reader.go", "server/commitlog/segment.go",
                      "server/commitlog/util.go:findSegment:", "server/commitlog/util.go:findSegmentByBaseOffset:", "server/commitlog/util.go:findSegmentContains:",
                      "server/partition.go:partition.handleReplicationResponse", "server/ (cannot list)"],
